@@ -22,6 +22,9 @@ type tlInfo struct {
 	TaskI    *types.Named
 	Fns      []*ssa.Function
 	Ctor     *ssa.Function // inlined view, like Queue, Worker, Push and Status (compare with sameFn)
+	AliasElems []*ssa.Store    // stores into a lane-list element of something that is not a fresh channel
+	ElemChans  []*ssa.MakeChan // channels made for lane-list elements
+	elemField  map[*ssa.MakeChan]*types.Var
 	Buffered *types.Var    // []chan Task made with non-zero capacity
 	Blocking *types.Var    // []chan Task made with capacity 0
 	Shared   *types.Var    // chan Task
@@ -289,12 +292,23 @@ func resolveTaskLane(p *core.Prog) *tlInfo {
 			}
 			mc, ok := sx.Unspill(st.Val).(*ssa.MakeChan)
 			if !ok {
+				// a lane-list element that is not a channel made for it (an alias of another lane's or list's channel)
+				if a, isIA := st.Addr.(*ssa.IndexAddr); isIA {
+					if f := listOf(a.X); f != nil {
+						t.AliasElems = append(t.AliasElems, st)
+					}
+				}
 				return
 			}
 			switch a := st.Addr.(type) {
 			case *ssa.IndexAddr:
 				if f := listOf(a.X); f != nil {
 					note(f, mc)
+					t.ElemChans = append(t.ElemChans, mc)
+					if t.elemField == nil {
+						t.elemField = map[*ssa.MakeChan]*types.Var{}
+					}
+					t.elemField[mc] = f
 				}
 			case *ssa.FieldAddr:
 				f := sx.FieldOf(a)
